@@ -4,6 +4,7 @@ Data file operations and readers/writers for the Python Iceberg implementation
 
 import os
 import tempfile
+from datetime import datetime
 from typing import TYPE_CHECKING, Any, Dict, Iterator, List, Optional, Tuple, Union
 
 import pyarrow as pa
@@ -519,7 +520,31 @@ class DataFileManager:
             str(f["name"]) for f in iceberg_schema.fields if f.get("required", False)
         }
 
+        # pyarrow's from_pylist converts with C-style truncation: 1.5 into an
+        # int/long column is stored as 1, and a datetime into a date column
+        # loses its time of day. A value the declared type cannot represent is
+        # rejected instead of being silently altered.
+        integer_fields = {
+            str(f["name"]) for f in iceberg_schema.fields if f.get("type") in ("int", "long")
+        }
+        date_fields = {
+            str(f["name"]) for f in iceberg_schema.fields if f.get("type") == "date"
+        }
+
         for i, record in enumerate(records):
+            for name in integer_fields:
+                value = record.get(name)
+                if isinstance(value, float) and not value.is_integer():
+                    raise ValueError(
+                        f"Record {i}: field '{name}' is an integer column but got the "
+                        f"non-integral value {value!r}; refusing to truncate it"
+                    )
+            for name in date_fields:
+                if isinstance(record.get(name), datetime):
+                    raise ValueError(
+                        f"Record {i}: field '{name}' is a date column but got a datetime "
+                        f"({record.get(name)!r}); refusing to drop its time of day"
+                    )
             unknown = {str(k) for k in record.keys()} - allowed
             if unknown:
                 raise ValueError(
